@@ -1,0 +1,32 @@
+//go:build verif
+
+package util
+
+// Read-only accessors used by the verification harness (/verif).  Compiled only with -tags verif.
+
+func poolIndex(p *LimitedPool, lp *levelPool) int {
+	if lp == nil {
+		return -1
+	}
+	for i, x := range p.pools {
+		if x == lp {
+			return i
+		}
+	}
+	return -2
+}
+
+// VerifFindPoolIndex returns the index of the size class Get(size) uses (-1: no pool).
+func VerifFindPoolIndex(p *LimitedPool, size int) int { return poolIndex(p, p.findPool(size)) }
+
+// VerifFindPutPoolIndex returns the index of the size class Put uses for a buffer of this capacity (-1: dropped).
+func VerifFindPutPoolIndex(p *LimitedPool, capacity int) int { return poolIndex(p, p.findPutPool(capacity)) }
+
+// VerifPoolClassSizes returns the buffer size each class allocates.
+func VerifPoolClassSizes(p *LimitedPool) []int {
+	out := make([]int, len(p.pools))
+	for i, x := range p.pools {
+		out[i] = x.size
+	}
+	return out
+}
